@@ -154,8 +154,9 @@ void bus_context_check_all_watches (BusContext *c) { n_watch_checks++; }
 static int cfg_max_incomplete = 64;
 int bus_context_get_max_incomplete_connections (BusContext *c) { return cfg_max_incomplete; }
 void bus_dispatch_remove_connection (DBusConnection *c) { }
-dbus_bool_t dbus_connection_set_watch_functions (DBusConnection *c, DBusAddWatchFunction a, DBusRemoveWatchFunction r, DBusWatchToggledFunction t, void *d, DBusFreeFunction f) { return 1; }
-dbus_bool_t dbus_connection_set_timeout_functions (DBusConnection *c, DBusAddTimeoutFunction a, DBusRemoveTimeoutFunction r, DBusTimeoutToggledFunction t, void *d, DBusFreeFunction f) { return 1; }
+static int n_watch_fn_set, n_timeout_fn_set;
+dbus_bool_t dbus_connection_set_watch_functions (DBusConnection *c, DBusAddWatchFunction a, DBusRemoveWatchFunction r, DBusWatchToggledFunction t, void *d, DBusFreeFunction f) { if (OP == 13 && a != 0 && sfail ()) return 0; n_watch_fn_set = a != 0; return 1; }
+dbus_bool_t dbus_connection_set_timeout_functions (DBusConnection *c, DBusAddTimeoutFunction a, DBusRemoveTimeoutFunction r, DBusTimeoutToggledFunction t, void *d, DBusFreeFunction f) { if (OP == 13 && a != 0 && sfail ()) return 0; n_timeout_fn_set = a != 0; return 1; }
 void dbus_connection_set_unix_user_function (DBusConnection *c, DBusAllowUnixUserFunction fn, void *d, DBusFreeFunction f) { }
 void dbus_connection_set_windows_user_function (DBusConnection *c, DBusAllowWindowsUserFunction fn, void *d, DBusFreeFunction f) { }
 void dbus_connection_set_dispatch_status_function (DBusConnection *c, DBusDispatchStatusFunction fn, void *d, DBusFreeFunction f) { }
@@ -163,8 +164,30 @@ void _dbus_connection_set_pending_fds_function (DBusConnection *c, DBusPendingFd
 void bus_containers_remove_connection (BusContainers *cs, DBusConnection *c) { }
 BusContainers *bus_context_get_containers (BusContext *c) { return 0; }
 static int data_cleared;
+#if OP == 13
+static DBusFreeFunction vf_data_free; static int n_data_frees;
+dbus_bool_t dbus_connection_set_data (DBusConnection *c, dbus_int32_t slot, void *data, DBusFreeFunction f)
+{ if (data != 0) { if (sfail ()) return 0; c->data = data; vf_data_free = f; return 1; }
+  data_cleared++; if (vf_data_free) { DBusFreeFunction ff = vf_data_free; void *old = c->data; vf_data_free = 0; c->data = 0; n_data_frees++; ff (old); } return 1; }
+#else
 dbus_bool_t dbus_connection_set_data (DBusConnection *c, dbus_int32_t slot, void *data, DBusFreeFunction f) { if (data == 0) data_cleared++; return 1; }   /* the connection data block is not freed in the model */
+#endif
 
+#if OP == 13
+/* ---- OP 13 environment: accepting a connection ---- */
+static int n_dispatch_added, n_timeouts_live, n_loop_timeouts, lsm_fail, aa_tok, n_aa_unref; static struct DBusTimeout pfd_tmo;
+void dbus_connection_set_route_peer_messages (DBusConnection *c, dbus_bool_t v) { }
+BusSELinuxID *bus_selinux_init_connection_id (DBusConnection *c, DBusError *e) { if (lsm_fail == 1) { e->name = DBUS_ERROR_FAILED; e->message = "m"; } return 0; }
+BusAppArmorConfinement *bus_apparmor_init_connection_confinement (DBusConnection *c, DBusError *e) { if (lsm_fail == 2) { e->name = DBUS_ERROR_FAILED; e->message = "m"; return 0; } return (BusAppArmorConfinement *) &aa_tok; }
+void bus_apparmor_confinement_unref (BusAppArmorConfinement *a) { n_aa_unref++; }
+dbus_bool_t bus_dispatch_add_connection (DBusConnection *c) { if (sfail ()) return 0; n_dispatch_added++; return 1; }
+DBusDispatchStatus dbus_connection_get_dispatch_status (DBusConnection *c) { return vf_bool () ? DBUS_DISPATCH_DATA_REMAINS : DBUS_DISPATCH_COMPLETE; }
+DBusLoop *bus_context_get_loop (BusContext *c) { return 0; }
+dbus_bool_t _dbus_loop_queue_dispatch (DBusLoop *l, DBusConnection *c) { return !sfail (); }
+DBusTimeout *_dbus_timeout_new (int interval, DBusTimeoutHandler h, void *d, DBusFreeFunction f) { if (sfail ()) return 0; n_timeouts_live++; pfd_tmo.enabled = 1; return &pfd_tmo; }
+void _dbus_timeout_unref (DBusTimeout *t) { n_timeouts_live--; }
+dbus_bool_t _dbus_loop_add_timeout (DBusLoop *l, DBusTimeout *t) { if (sfail ()) return 0; n_loop_timeouts++; return 1; }
+#endif
 DBusCredentials *_dbus_connection_get_credentials (DBusConnection *c) { return 0; }
 dbus_bool_t _dbus_string_init (DBusString *s) { return !sfail (); }
 void _dbus_string_free (DBusString *s) { }
@@ -494,6 +517,46 @@ void harness (void)
       }
     VF_ASSERT (data_cleared == 1 && cnp[0]->refs == 1 && cdp[0]->link_in_connection_list == 0, "the bus's per-connection data and its reference are released once");
 #undef l0
+  }
+#elif OP == 13
+  {
+    /* C13 / C14: accepting one connection — the real bus_connections_setup_connection.  The accept watch only fires while the gate is open (C13 accept_gate:
+     * open <=> incomplete connections < max_incomplete_connections), so the step starts below the limit.  Success: the connection is appended to the
+     * incomplete list (newest last), counted once, referenced once, the count stays within the limit and the gate is re-evaluated.  Failure of any
+     * fallible step (k-th of 9, k symbolic; or a security-module refusal): nothing stays behind — count, list, reference, dispatch registration as
+     * before, callbacks cleared, the per-connection block freed exactly once, the pending-fd timeout released. */
+    static struct DBusConnection nc = { 9, 0, 1, 1 }; static struct DBusTimeout et; static DBusList l0; int i0, blocks0, had_other = vf_bool (); dbus_bool_t ok;
+    cfg_max_incomplete = vf_range (1, 1000); conns.n_incomplete = i0 = vf_range (0, 999); VF_ASSUME (i0 < cfg_max_incomplete);
+    if (had_other) { VF_ASSUME (i0 >= 1); l0.data = cnp[0]; l0.next = l0.prev = &l0; conns.incomplete = &l0; }     /* one older incomplete connection materialised, the others are only counted */
+    vf_now_set = 1; vf_now_s = 1000; vf_now_us = 0; cdp[0]->connection_tv_sec = 1000; cdp[0]->connection_tv_usec = 0; conns.expire_timeout = &et;
+    str_fail_at = vf_range (0, 10); str_calls = 0; lsm_fail = vf_range (0, 2); n_watch_checks = 0; nc.data = 0; nc.refs = 1;
+    connection_data_slot = 0; blocks0 = vf_live_blocks;
+#ifdef KOOM
+    vf_alloc_calls = 0; vf_oom_at = KOOM;      /* the KOOM-th dbus_malloc of the step fails (1 = the per-connection block itself) */
+#endif
+    ok = bus_connections_setup_connection (&conns, &nc);
+    VF_ASSERT (conns.n_incomplete <= cfg_max_incomplete, "the number of incomplete connections never exceeds max_incomplete_connections");
+    if (ok)
+      {
+        DBusList *last = conns.incomplete ? conns.incomplete->prev : 0;
+        VF_ASSERT (str_fail_at == 0 || str_calls < str_fail_at, "success only when no step failed");
+        VF_ASSERT (lsm_fail == 0, "success only when no security module refused");
+        VF_ASSERT (conns.n_incomplete == i0 + 1 && nc.refs == 2 && nc.data != 0, "an accepted connection is counted once and referenced once");
+        VF_ASSERT (last != 0 && last->data == &nc && (!had_other || conns.incomplete == &l0), "and appended to the incomplete list behind the older ones (oldest first: the expiry scan relies on it)");
+        VF_ASSERT (n_watch_checks >= 1, "the accept gate is re-evaluated after the count rose");
+        VF_ASSERT (n_dispatch_added == 1 && n_watch_fn_set && n_timeout_fn_set && n_timeouts_live == 1 && n_loop_timeouts == 1 && !pfd_tmo.enabled, "registered for dispatch once; pending-fd timeout created disabled");
+        VF_ASSERT (closed_mask == 0 && n_closed == 0, "nobody is expired by accepting a connection at the same instant");
+        VF_WITNESS_OPT ("connection accepted");
+      }
+    else
+      {
+        VF_ASSERT ((str_fail_at > 0 && str_calls >= str_fail_at) || lsm_fail != 0 || vf_oom_hit, "failure only when a step failed or a security module refused");
+        VF_ASSERT (conns.n_incomplete == i0 && nc.refs == 1 && nc.data == 0, "a refused connection is not counted, not referenced and carries no bus data");
+        VF_ASSERT (conns.incomplete == (had_other ? &l0 : 0) && (!had_other || (l0.next == &l0 && l0.prev == &l0)), "the incomplete list is as before");
+        VF_ASSERT (!n_watch_fn_set && !n_timeout_fn_set && n_timeouts_live == 0, "callbacks are cleared and the pending-fd timeout is released");
+        VF_ASSERT (vf_live_blocks == blocks0, "every block acquired for the connection is freed again (the per-connection data exactly once)");
+        VF_WITNESS_OPT ("connection refused");
+      }
   }
 #elif OP == 12
   {
